@@ -12,6 +12,9 @@ spec forms
     ["scaled", 2, "K1"]              2*K1
     ["sum", "K1", "K2"]              K1 + K2
     ["mm", "VM1", "KM1", "B10"]      VM1/(KM1 + A_B10(t))     (nonlinear in the amount of compartment B10)
+    ["sq", "K1", "B10"]              K1*A_B10(t)
+    ["mix", "CL1", "V1", "VM1", "KM1", "B10"]   CL1/V1 + VM1/(KM1 + A_B10(t))
+    ["so", "KON1", "VC1", "A"]       KON1*A_A(t)/VC1          (second order: depends on ANOTHER compartment's amount)
 dose forms
     ["bolus", amount_symbol, admid]
     ["inf_rate", amount_symbol, admid, rate_symbol]
@@ -28,7 +31,8 @@ NAMES = ["A", "B", "B10", "B9", "CENTRAL", "DEPOT", "PERIPHERAL1", "PERIPHERAL2"
          "TRANSIT1", "Z", "a"]
 # deliberately not generated: METABOLITE, EFFECT, COMPLEX, RESPONSE (central_compartment special-cases them by name)
 
-STRATA = [("main", 0.80), ("nodose", 0.11), ("nooutput", 0.09)]
+# main: no construct with a listed finding; the other three contain exactly one such construct
+STRATA = [("main", 0.76), ("nodose", 0.09), ("nooutput", 0.08), ("second_order", 0.07)]
 
 
 # ------------------------------------------------------------------ specs
@@ -48,7 +52,18 @@ def spec_sym(spec):
         return sympy.Symbol(spec[1]) + sympy.Symbol(spec[2])
     if k == "mm":
         return sympy.Symbol(spec[1]) / (sympy.Symbol(spec[2]) + sympy.Function("A_" + spec[3])(sympy.Symbol("t")))
+    A = lambda nm: sympy.Function("A_" + nm)(sympy.Symbol("t"))  # noqa: E731
+    if k == "sq":
+        return sympy.Symbol(spec[1]) * A(spec[2])
+    if k == "mix":
+        return sympy.Symbol(spec[1]) / sympy.Symbol(spec[2]) + sympy.Symbol(spec[3]) / (sympy.Symbol(spec[4]) + A(spec[5]))
+    if k == "so":
+        return sympy.Symbol(spec[1]) * A(spec[3]) / sympy.Symbol(spec[2])
     raise ValueError(spec)
+
+
+def has_amount(spec):
+    return spec[0] in ("mm", "sq", "mix", "so")
 
 
 def spec_text(spec):
@@ -65,6 +80,12 @@ def spec_text(spec):
         return f"{spec[1]} + {spec[2]}"
     if k == "mm":
         return f"{spec[1]}/({spec[2]} + A_{spec[3]}(t))"
+    if k == "sq":
+        return f"{spec[1]}*A_{spec[2]}(t)"
+    if k == "mix":
+        return f"{spec[1]}/{spec[2]} + {spec[3]}/({spec[4]} + A_{spec[5]}(t))"
+    if k == "so":
+        return f"{spec[1]}*A_{spec[3]}(t)/{spec[2]}"
     raise ValueError(spec)
 
 
@@ -79,6 +100,12 @@ def spec_symbols(spec):
     if k == "scaled":
         return {spec[2]}
     if k == "mm":
+        return {spec[1], spec[2]}
+    if k == "sq":
+        return {spec[1]}
+    if k == "mix":
+        return set(spec[1:5])
+    if k == "so":
         return {spec[1], spec[2]}
     raise ValueError(spec)
 
@@ -242,14 +269,14 @@ class Gen:
     # ---- pieces
     def form(self, spec):
         f = self.rng.choice(["str", "sympy", "expr"])
-        if spec[0] == "mm" and f == "str":
+        if has_amount(spec) and f == "str":
             f = "sympy"
         return f
 
     def rate(self, src):
         rng = self.rng
         r = rng.random()
-        existing = [s for s in self.sh.edges.values() if s[0] != "mm"]
+        existing = [s for s in self.sh.edges.values() if not has_amount(s)]
         if existing and r < 0.12:
             self.tags.add("shared_rate")
             return list(rng.choice(existing))
@@ -257,11 +284,19 @@ class Gen:
             return ["sym", self.fresh("K")]
         if r < 0.72:
             return ["quot", self.fresh("CL"), rng.choice(["V1", "V2", self.fresh("V")])]
-        if r < 0.88:
+        if r < 0.82:
             self.tags.add("nonlinear_rate")
             return ["mm", self.fresh("VM"), self.fresh("KM"), src]
+        if r < 0.86:
+            self.tags.add("nonlinear_rate")
+            return ["sq", self.fresh("K"), src]
+        if r < 0.90:
+            self.tags.add("nonlinear_rate")
+            return ["mix", self.fresh("CL"), rng.choice(["V1", "V2"]), self.fresh("VM"), self.fresh("KM"), src]
         if r < 0.94:
             return ["scaled", rng.choice([2, 3]), self.fresh("K")]
+        if r < 0.97:
+            return ["num", rng.choice([1, 2, 3])]
         return ["sum", self.fresh("K"), self.fresh("K")]
 
     def dose(self):
@@ -303,6 +338,8 @@ class Gen:
     def construct(self):
         rng = self.rng
         n = rng.choices([1, 2, 3, 4, 5, 6], weights=[4, 18, 26, 26, 16, 10])[0]
+        if self.stratum == "second_order":
+            n = max(n, 2)
         names = rng.sample(NAMES, n)
         ndoses = 0 if self.stratum == "nodose" else rng.choices([0, 1, 2, 3], weights=[1, 5, 3, 2])[0]
         dose_at = [rng.choice(names) for _ in range(ndoses)]
@@ -411,12 +448,24 @@ class Gen:
             self.edit()
         # stratum fix-up: the final system of stratum 'main' has a dose and an output flow
         names = sorted(self.sh.comps)
-        if self.stratum in ("main", "nooutput") and not self.sh.has_dose():
+        if self.stratum in ("main", "nooutput", "second_order") and not self.sh.has_dose():
             self.emit({"op": "add_dose", "name": rng.choice(names), "doses": [self.dose()], "single": True})
-        if self.stratum in ("main", "nodose") and not self.sh.outputs():
+        if self.stratum in ("main", "nodose", "second_order") and not self.sh.outputs():
             s = rng.choice(names)
             r = self.rate(s)
             self.emit({"op": "add_flow", "src": s, "dst": OUT, "rate": r, "as": self.form(r)})
+        if self.stratum == "second_order":
+            # exactly one flow whose rate depends on the amount of a compartment other than its source
+            if len(names) < 2:
+                nm = rng.choice([x for x in NAMES if x not in self.sh.comps])
+                self.emit({"op": "add_compartment", "name": nm, "doses": [], "input": ["num", 0], "lag": ["num", 0],
+                           "F": ["num", 1]})
+                names = sorted(self.sh.comps)
+            s = rng.choice(names)
+            other = rng.choice([x for x in names if x != s])
+            d = rng.choice([x for x in names + [OUT] if x != s])
+            r = ["so", self.fresh("KON"), self.fresh("VC"), other]
+            self.emit({"op": "add_flow", "src": s, "dst": d, "rate": r, "as": self.form(r)})
         return n_construct
 
 
